@@ -96,7 +96,7 @@ func walkTree(rootGoitPath string, object *Object) ([]*Node, error) {
 			if err != nil {
 				return nil, err
 			}
-			lineSplit = strings.Split(lineString, " ")
+			lineSplit = strings.SplitN(lineString, " ", 2)
 
 			mode := lineSplit[0]
 			if mode == "040000" {
@@ -126,7 +126,7 @@ func walkTree(rootGoitPath string, object *Object) ([]*Node, error) {
 			hashString := hex.EncodeToString(hashBytes)
 			lineSplit = []string{hashString}
 			if lineString != "" {
-				lineSplit = append(lineSplit, strings.Split(lineString, " ")...)
+				lineSplit = append(lineSplit, strings.SplitN(lineString, " ", 2)...)
 			}
 
 			hash, err := sha.ReadHash(hashString)
